@@ -28,6 +28,8 @@ def unregisterWatcher (uid : Nat) : M Unit :=
 
 def setStopping : M Unit := modA fun a => { a with stopping := true }
 def setRestarting : M Unit := modA fun a => { a with restarting := true, stopping := true }
+/-- the `except Exception:` of `Arbiter.restart(inside_circusd=True)` (fix 273f512): `_restarting = False; _stopping = False` -/
+def clearRestarting : M Unit := modA fun a => { a with restarting := false, stopping := false }
 def setLoopStop (b : Bool) : M Unit := modA fun a => { a with loopStop := b }
 def setSocketEvent (b : Bool) : M Unit := modA fun a => { a with socketEvent := b }
 def setSockReady (b : Bool) : M Unit := modA fun a => { a with sockReady := b }
@@ -47,9 +49,10 @@ def pollsOf (gtMs : Nat) : Nat := (gtMs + 99) / 100
 def accessDenied : Val := excVal "AccessDenied"
 
 def killFinish (rec : Rec) (wuid pid : Nat) (escalate : Bool) (wt : Waiter) : M Unit := do
-  -- an AccessDenied of the SIGKILL escapes from kill_process: `process.stopping` stays set, `process.stop()` is skipped
+  -- an AccessDenied of the SIGKILL escapes from kill_process: `except Exception: process.stopping = False; raise`
+  -- (fix 60e14d0) — the flag is cleared, `remove_redirections` and `process.stop()` are skipped
   let ok ← if escalate then sendSignalProcess wuid pid 9 true else pure true
-  if !ok then deliver rec wt accessDenied else
+  if !ok then do setObjStopping pid false; deliver rec wt accessDenied else
   setObjStopping pid false
   objStop pid
   deliver rec wt (.bool true)
@@ -353,7 +356,8 @@ def arbStop (rec : Rec) (wt : Waiter) : M Unit := do
 def arbRestartInside (rec : Rec) (wt : Waiter) : M Unit := do
   setRestarting
   let ws ← iterWatchers false
-  await rec (.arbStopWatchers ws true) .quitAfterStop wt
+  -- `try: yield self._stop_watchers(close_output_streams=True)` (fix 273f512), see `runResume`
+  await rec (.arbStopWatchers ws true) .restartInsideAfterStop wt
 
 def arbReloadNext (rec : Rec) (ws : List Nat) (g s : Bool) (wt : Waiter) : M Unit :=
   match ws with
@@ -447,6 +451,8 @@ def runResume (rec : Rec) (k : Kont) (v : Val) (wt : Waiter) : M Unit :=
   | .pass, v => deliver rec wt v
   | .multi _ _, v => deliver rec wt v          -- not reached: multi frames are handled by `deliver`
   | .multiSlot fid slot, v => multiCollect rec fid slot v
+  -- `except Exception: self._restarting = False; self._stopping = False; raise` (fix 273f512)
+  | .restartInsideAfterStop, .exc e => do clearRestarting; deliver rec wt (.exc e)
   | _, .exc e => deliver rec wt (.exc e)       -- an exception propagates through every other frame
   | .killWait w p sig i polls, _ => killLoop rec w p sig i polls wt
   | .manageWatchersTail need, _ => manageWatchersTail rec need wt
@@ -474,6 +480,7 @@ def runResume (rec : Rec) (k : Kont) (v : Val) (wt : Waiter) : M Unit :=
   | .arbRestartAfterStop ws, _ => await rec (.arbStartWatchers ws) .ignore wt
   | .arbReloadNext rest g s, _ => arbReloadAfter rec rest g s wt
   | .quitAfterStop, _ => arbStopTail rec wt
+  | .restartInsideAfterStop, _ => arbStopTail rec wt
   | .ignore, _ => deliver rec wt .unit
 
 /-- the interpreter: `fuel` bounds the number of nested task activations -/
